@@ -142,6 +142,59 @@ impl syn::visit_mut::VisitMut for ParenToPlaceholder {
     }
 }
 
+/// mode 4 (on top of mode 3): inside the `#[educe(..)]` attributes a parenthesised trait-object type `(dyn A + B)` becomes
+/// an invisible group as well (`Into(&'static $t)` with `$t = dyn A + B`); with `collect` the groups become placeholders
+/// for the macro form instead.
+fn attr_parens(ts: proc_macro2::TokenStream, collect: &mut Option<&mut Vec<String>>) -> proc_macro2::TokenStream {
+    use proc_macro2::{Delimiter, Group, Ident, Span, TokenTree};
+    let mut out = proc_macro2::TokenStream::new();
+    for tt in ts {
+        match tt {
+            TokenTree::Group(g) => {
+                let inner = attr_parens(g.stream(), collect);
+                let dyn_first = matches!(inner.clone().into_iter().next(), Some(TokenTree::Ident(i)) if i == "dyn");
+                if g.delimiter() == Delimiter::Parenthesis && dyn_first {
+                    match collect {
+                        Some(v) => {
+                            let k = 1000 + v.len();
+                            v.push(inner.to_string());
+                            out.extend([TokenTree::Ident(Ident::new(&format!("EDUCE__FRAGMENT_{}__", k), Span::call_site()))]);
+                        },
+                        None => out.extend([TokenTree::Group(Group::new(Delimiter::None, inner))]),
+                    }
+                } else {
+                    let mut ng = Group::new(g.delimiter(), inner);
+                    ng.set_span(g.span());
+                    out.extend([TokenTree::Group(ng)]);
+                }
+            },
+            other => out.extend([other]),
+        }
+    }
+    out
+}
+
+fn for_each_educe_attr(ast: &mut syn::DeriveInput, f: &mut dyn FnMut(&mut syn::Attribute)) {
+    let mut on = |attrs: &mut Vec<syn::Attribute>| attrs.iter_mut().filter(|a| a.path().is_ident("educe")).for_each(|a| f(a));
+    on(&mut ast.attrs);
+    match &mut ast.data {
+        syn::Data::Struct(d) => d.fields.iter_mut().for_each(|x| on(&mut x.attrs)),
+        syn::Data::Enum(d) => d.variants.iter_mut().for_each(|v| {
+            on(&mut v.attrs);
+            v.fields.iter_mut().for_each(|x| on(&mut x.attrs))
+        }),
+        syn::Data::Union(d) => d.fields.named.iter_mut().for_each(|x| on(&mut x.attrs)),
+    }
+}
+
+fn attrs_parens(ast: &mut syn::DeriveInput, collect: &mut Option<&mut Vec<String>>) {
+    for_each_educe_attr(ast, &mut |a| {
+        if let syn::Meta::List(l) = &mut a.meta {
+            l.tokens = attr_parens(l.tokens.clone(), collect);
+        }
+    });
+}
+
 fn for_each_field_type(ast: &mut syn::DeriveInput, f: &mut dyn FnMut(&mut syn::Type)) {
     match &mut ast.data {
         syn::Data::Struct(d) => d.fields.iter_mut().for_each(|x| f(&mut x.ty)),
@@ -154,13 +207,17 @@ fn for_each_field_type(ast: &mut syn::DeriveInput, f: &mut dyn FnMut(&mut syn::T
 fn macro_source(src: &str, mode: u64) -> Option<String> {
     let mut ast: syn::DeriveInput = syn::parse_str(src).ok()?;
     let mut tys: Vec<String> = vec![];
-    if mode == 3 {
+    let mut attr_tys: Vec<String> = vec![];
+    if mode >= 3 {
         let mut v = ParenToPlaceholder(vec![]);
         for_each_field_type(&mut ast, &mut |ty| syn::visit_mut::VisitMut::visit_type_mut(&mut v, ty));
         tys = v.0;
     }
+    if mode == 4 {
+        attrs_parens(&mut ast, &mut Some(&mut attr_tys));
+    }
     for_each_field_type(&mut ast, &mut |ty| {
-        if mode == 3 {
+        if mode >= 3 {
             return;
         }
         let k = tys.len();
@@ -176,9 +233,13 @@ fn macro_source(src: &str, mode: u64) -> Option<String> {
         *ty = ph;
     });
     let mut body = ast.to_token_stream().to_string();
+    for k in (0..attr_tys.len()).rev() {
+        body = body.replace(&format!("EDUCE__FRAGMENT_{}__", 1000 + k), &format!("$t{}", tys.len() + k));
+    }
     for k in (0..tys.len()).rev() {
         body = body.replace(&format!("EDUCE__FRAGMENT_{}__", k), &format!("$t{}", k));
     }
+    tys.extend(attr_tys);
     let params: Vec<String> = (0..tys.len()).map(|k| format!("$t{}:ty", k)).collect();
     Some(format!("macro_rules! educe__mk {{ ({}) => {{ {} }} }}\neduce__mk!({});", params.join(", "), body, tys.join(", ")))
 }
@@ -192,8 +253,11 @@ fn expand_grouped(src: &str, group_mode: u64) -> Value {
         Ok(a) => a,
         Err(e) => return json!({"outcome": "parse_error", "message": e.to_string()}),
     };
-    if group_mode == 3 {
+    if group_mode >= 3 {
         for_each_field_type(&mut ast, &mut |ty| syn::visit_mut::VisitMut::visit_type_mut(&mut ParenToGroup, ty));
+        if group_mode == 4 {
+            attrs_parens(&mut ast, &mut None);
+        }
     } else if group_mode > 0 {
         for_each_field_type(&mut ast, &mut |ty| group_type(ty, group_mode));
     }
@@ -241,10 +305,10 @@ fn main() {
                     // the same definition with its field types inside None-delimited groups, as a macro_rules! macro
                     // hands them over: same outcome and same tokens expected
                     let mut gs = vec![];
-                    for mode in [1u64, 2u64, 3u64] {
+                    for mode in [1u64, 2u64, 3u64, 4u64] {
                         let w = expand_grouped(src, mode);
                         gs.push(json!({"mode": mode, "outcome": w["outcome"], "message": w["message"], "input": w["input"],
-                                       "same_tokens": w["tokens"] == v["tokens"] || mode == 3,
+                                       "same_tokens": w["tokens"] == v["tokens"] || mode >= 3,
                                        "macro_src": if w["outcome"] != v["outcome"] || w["tokens"] != v["tokens"] { json!(macro_source(src, mode)) } else { Value::Null }}));
                     }
                     v["group"] = json!(gs);
